@@ -1,15 +1,21 @@
 """C18 — serialization round-trips every value bit for bit (engine E1; text formats not applicable)."""
+import os
+import sys
+
+sys.path.insert(0, os.path.join(os.path.dirname(os.path.dirname(os.path.abspath(__file__))), "e2"))
 from e1 import HarnessSpec
 from props.e1util import run_e1, replay_cmd
 
 LEVEL = "model_checking"
 
-SERDE = ["knot", "poly0", "poly1", "poly2", "poly3", "poly4", "poly5", "poly6", "poly7", "poly8", "log_poly1", "intoflog_poly2",
-         "intoflogpoly4", "segment_poly1", "segment_intoflogpoly4", "pw_poly0_n0", "pw_poly0_n1", "pw_poly0_n2", "pw_poly0_n3", "pw_poly1_n2"]
-SERDE_QUICK = ["knot", "poly0", "poly3", "poly8", "log_poly1", "intoflog_poly2", "intoflogpoly4", "segment_poly1", "pw_poly0_n0",
-               "pw_poly0_n2", "pw_poly1_n2"]
-BORSH = ["knot", "poly0", "poly1", "poly3", "poly8", "log_poly1", "intoflog_poly2", "intoflogpoly4", "segment_poly1", "nan_rejected"]
-BORSH_QUICK = ["knot", "poly3", "log_poly1", "intoflog_poly2", "intoflogpoly4", "segment_poly1", "nan_rejected"]
+# every concrete serializable type of the crate (one harness per instantiation); the generic wrappers with two instantiations each
+SERDE = ["knot", "poly0", "poly1", "poly2", "poly3", "poly4", "poly5", "poly6", "poly7", "poly8", "log_poly1", "log_poly3", "intoflog_poly0",
+         "intoflog_poly2", "intoflogpoly4", "segment_poly1", "segment_intoflogpoly4", "pw_poly0_n0", "pw_poly0_n1", "pw_poly0_n2",
+         "pw_poly0_n3", "pw_poly1_n2"]
+SERDE_QUICK = SERDE
+BORSH = ["knot", "poly0", "poly1", "poly2", "poly3", "poly4", "poly5", "poly6", "poly7", "poly8", "log_poly1", "log_poly3", "intoflog_poly0",
+         "intoflog_poly2", "intoflogpoly4", "segment_poly1", "segment_intoflogpoly4", "nan_rejected"]
+BORSH_QUICK = BORSH
 
 
 def specs_serde(tier):
@@ -40,20 +46,135 @@ def specs_borsh(tier):
     return out
 
 
+# ---------------------------------------------------------------------------------------------------------------- E2 (borsh)
+BORSH_MIR_TAGS = (["K"] + ["P%d" % k for k in range(9)] + ["LP%d" % k for k in (0, 1, 3, 8)] + ["IL%d" % k for k in (0, 2, 8)]
+                  + ["ILP4", "SP0", "SP3", "SLP2", "SIL1", "SILP4"])
+BORSH_MIR_PW_QUICK = [(0, "P0"), (1, "P0"), (2, "P1"), (3, "ILP4"), (8, "P3"), (33, "P0"), (64, "P1")]
+BORSH_MIR_PW_THOROUGH = BORSH_MIR_PW_QUICK + [(5, "LP4"), (16, "IL2"), (17, "P8"), (128, "P2"), (257, "P0")]
+
+
+def run_borsh_mir(rep, tier):
+    """borsh round trip decided from the MIR of the derive-generated impls (feature borsh), dependency impls by contract."""
+    import z3
+    import serial
+    from engine import E2, model_value
+    e = E2(rep, tier, features=("borsh",))
+    tags = list(BORSH_MIR_TAGS) + ["W%d:%s" % (n, t) for n, t in (BORSH_MIR_PW_QUICK if tier == "quick" else BORSH_MIR_PW_THOROUGH)]
+    for tag in tags:
+        if any(v.key == "borsh-roundtrip" for v in rep.violations):
+            break  # a natively reproduced violation is already reported for this role; larger sizes add nothing
+        name = "borsh-mir:%s" % tag
+        what = ("borsh, from the MIR of the derived impls: for ALL non-NaN binary64 contents, %s serializes without error, the written "
+                "tape deserializes without error and is consumed exactly, and the value read back has the same shape (number of segments, "
+                "array lengths) and, number by number, the same bits" % serial.rust_type(tag))
+        try:
+            paths, assum, nums0 = serial.roundtrip(e, tag)
+        except Exception as ex:
+            e.not_encoded(name, what, "%s: %s" % (type(ex).__name__, ex))
+            continue
+        fns = sorted(f for f in e.rep.functions if "serialize" in f or "deserialize_reader" in f)[:12]
+        goals = []
+        structural = []
+        for p in paths:
+            if p.panic is not None:
+                goals.append((p.cond(), z3.BoolVal(False), "panic: %s" % p.panic))
+                continue
+            r = p.result
+            if not r["ser_ok"]:
+                goals.append((p.cond(), z3.BoolVal(False), "serialize returned Err on non-NaN content"))
+                continue
+            if not r.get("de_ok"):
+                goals.append((p.cond(), z3.BoolVal(False), "deserialize of the written tape returned Err (%s)" % "; ".join(r["events"])))
+                continue
+            if r["consumed"] != r["written"]:
+                goals.append((p.cond(), z3.BoolVal(False), "tape has %d tokens, %d consumed" % (r["written"], r["consumed"])))
+                continue
+            if serial.shape(r["back"]) != serial.shape(r["value"]):
+                goals.append((p.cond(), z3.BoolVal(False), "shape differs: wrote %s, read %s" % (serial.shape(r["value"])[:80],
+                                                                                                   serial.shape(r["back"])[:80])))
+                continue
+            a, b = serial.flat_nums(r["value"]), serial.flat_nums(r["back"])
+            goals.append((p.cond(), z3.And([x.t == y.t for x, y in zip(a, b)]) if a else z3.BoolVal(True), "same bits"))
+        goal = z3.And([z3.Implies(c, g) for c, g, _ in goals]) if goals else z3.BoolVal(False)
+        syms = [x.t for x in nums0]
+
+        def replay(model, ob, tag=tag, syms=syms):
+            vals = [model_value(model, t) for t in syms]
+            vals = [1.0 if v is None else float(v) for v in vals]
+            return replay_borsh(e, tag, vals, ob)
+        e.prove(name, what, assum, goal, dom_name="FP", functions=fns,
+                witness_terms={("v%d" % i): t for i, t in enumerate(syms[:6])}, role="borsh-roundtrip", replay=replay,
+                extra_bounds={"type": serial.rust_type(tag), "paths": len(paths), "numbers": len(syms),
+                              "path outcomes": sorted(set(m for _, _, m in goals))})
+    e.finish()
+
+
+def replay_borsh(e, tag, vals, ob):
+    want = ([float(int(tag[1:].split(":")[0]))] if tag.startswith("W") else []) + list(vals)
+    path = e.write_replay(ob.name, {"kind": "E2-native-borsh", "requests": [["borshrt", tag, vals]], "expected": want,
+                                    "statement": "borsh round trip returns the value with identical bits in every number"})
+    # the solver's point plus a few fixed stress contents (the deviation may not depend on the values at all)
+    import struct
+    cands = [vals]
+    n = len(vals)
+    cands.append([float(i + 1) for i in range(n)])
+    cands.append([(-1.0) ** i * (i + 0.5) for i in range(n)])
+    cands.append([[float("inf"), float("-inf"), -0.0, 5e-324, 1.7976931348623157e308][i % 5] for i in range(n)])
+    bad = []
+    for c in cands:
+        w = ([want[0]] if tag.startswith("W") else []) + list(c)
+        for prof in ("dev", "release"):
+            o = e.native.run([("borshrt", tag, c)], prof)[0]
+            if isinstance(o, str):
+                if "unknown" in o:
+                    return False, path, "native oracle has no entry for borshrt %s" % tag
+                bad.append("%s build: borsh round trip of %s %r -> %s" % (prof, tag, c[:8], o))
+            elif len(o) != len(w) or any(struct.pack("<d", x) != struct.pack("<d", y) for x, y in zip(o, w)):
+                bad.append("%s build: borsh round trip of %s %r -> %r" % (prof, tag, c[:8], o[:9]))
+        if bad:
+            e.write_replay(ob.name, {"kind": "E2-native-borsh", "requests": [["borshrt", tag, c]], "expected": w,
+                                     "statement": "borsh round trip returns the value with identical bits in every number"})
+            return True, path, "; ".join(bad[:2])
+    return False, path, "model does not reproduce natively"
+
+
 def run(rep, tier):
     rep.explanation = ("Bounded model checking (Kani) of the derived serialization impls over symbolic non-NaN f64 contents: serde through a "
                        "harness-local non-self-describing binary Serializer/Deserializer, borsh through its own reader/writer on a fixed "
-                       "buffer, per concrete type and segment count.")
-    rep.bounds = {"segments": "0..3 (serde)", "configurations": ["default features (serde)", "--features borsh"],
-                  "outside": "text formats such as JSON (float printing/parsing loops of a dependency: not encodable within reach); borsh "
-                  "framing of Vec<Segment<T>> (CBMC does not finish within 400 s in two formulations; Segment<T> and all fixed-size forms are "
-                  "covered, the Vec framing is borsh's own code); more than 3 segments"}
+                       "buffer, per concrete type and segment count.  In addition the borsh impls that the derive macros generate inside "
+                       "this crate are executed symbolically from their MIR (feature borsh) for every type and for piecewise functions of "
+                       "up to 64 (thorough 257) segments, with the dependency's own impls (f64, [f64; N], Vec<X>) replaced by their wire "
+                       "contract, and the round trip is decided by z3 on symbolic binary64 contents.")
+    rep.bounds = {"segments": "0..3 (serde, Kani); borsh from MIR: 0,1,2,3,8,33,64 (thorough +5,16,17,128,257)",
+                  "configurations": ["default features (serde)", "--features borsh"],
+                  "outside": "text formats such as JSON (float printing/parsing loops of a dependency: not encodable within reach); the "
+                  "compiled borsh framing of Vec<Segment<T>> (CBMC does not finish within 400 s in two formulations; Segment<T> and all "
+                  "fixed-size forms are covered on the compiled code, Piecewise<T> through the MIR of the derived impls with borsh's Vec "
+                  "impl taken by contract); serde with more than 3 segments"}
+    rep.assumptions.append("borsh-mir obligations: borsh's impls for f64 (8 bytes LE, NaN refused both ways), [f64; N] (elements in "
+                           "order) and Vec<X> (u32 length, elements in order) are modelled by their specification, not executed")
     rep.assumptions.append("serde half: the harness-local format (/verif/e1/src/c18.rs, mod fmt) stands for 'a serde data format'; the claim is "
                            "about the derived impls' field order, arity and attributes, not about any particular published format")
     run_e1(rep, specs_serde(tier))
     run_e1(rep, specs_borsh(tier), features=("borsh",))
+    run_borsh_mir(rep, tier)
 
 
 def replay(path):
+    if path.endswith(".json"):
+        import json
+        import struct
+        from engine import Native
+        d = json.load(open(path))
+        nat = Native(("borsh",))
+        bad = 0
+        for (op, ty, vals) in d["requests"]:
+            for prof in ("dev", "release"):
+                o = nat.run([(op, ty, vals)], prof)[0]
+                print("%s %s %r -> %r [%s]; expected %r" % (op, ty, vals, o, prof, d.get("expected")))
+                if isinstance(o, str) or len(o) != len(d["expected"]) or any(
+                        struct.pack("<d", x) != struct.pack("<d", y) for x, y in zip(o, d["expected"])):
+                    bad = 1
+        return bad
     feats = ("borsh",) if "borsh" in path else ()
     return replay_cmd(path, features=feats)
